@@ -41,6 +41,11 @@ fn slots(last: bool, reduced: bool) -> Vec<Slot> {
             fins.push(("upgrade", Finish::Upgrade, false));
         }
     }
+    if last {
+        // a raw response that the application never flushes (it may stay in the write buffer):
+        // everything answered BEFORE it must still reach the client at once
+        fins.push(("raw-unflushed", Finish::Writer { parts: vec![vec![0u8]], flush: false }, false));
+    }
     let mut v = Vec::new();
     for (rl, rb, reads) in &reqs {
         for (dl, rp) in reads {
